@@ -153,7 +153,7 @@ void worker_main(int fd) {
     }
     else if (cmd == "buf_new") { PShmBuffer *b = p_shm_buffer_new(a[2].c_str(), (psize)I(3), &err); if (b) S.bufs[(int)I(1)] = b; else r = "null " + std::to_string(err ? p_error_get_native_code(err) : 0); }
     else if (cmd == "buf_write") { string b = pattern_bytes((size_t)I(2), (unsigned)I(3)); r = "n " + std::to_string((long)p_shm_buffer_write(S.bufs[(int)I(1)], (ppointer)b.data(), b.size(), &err)); }
-    else if (cmd == "buf_read") { size_t len = (size_t)I(2); string b(len ? len : 1, 0); pint n = p_shm_buffer_read(S.bufs[(int)I(1)], &b[0], len, &err); r = "n " + std::to_string(n) + " " + (n > 0 ? vl::hex(b.substr(0, (size_t)n)) : string("-")); }
+    else if (cmd == "buf_read") { size_t len = (size_t)I(2); string b(len ? len : 1, (char)0xEE); pint n = p_shm_buffer_read(S.bufs[(int)I(1)], &b[0], len, &err); r = "n " + std::to_string(n) + " " + (n > 0 ? vl::hex(b.substr(0, (size_t)n)) : string("-")); if (n >= 0) for (size_t i = (size_t)n; i < len; i++) if ((unsigned char)b[i] != 0xEE) { r += " beyond " + std::to_string(i); break; } }
     else if (cmd == "buf_clear") { p_shm_buffer_clear(S.bufs[(int)I(1)]); }
     else if (cmd == "buf_free_space") { r = "n " + std::to_string((long)p_shm_buffer_get_free_space(S.bufs[(int)I(1)], &err)); }
     else if (cmd == "buf_used") { r = "n " + std::to_string((long)p_shm_buffer_get_used_space(S.bufs[(int)I(1)], &err)); }
@@ -481,8 +481,11 @@ Outcome run_c06(const Case &c, bool thorough) {
       long v0 = 1 + (s.args.size() > 2 ? s.args[2] % 3 : 0), vn = 4 + (s.args.size() > 3 ? s.args[3] % 3 : 0);
       string a0 = co.call(w2, "sem_new 7 " + name + " " + std::to_string(v0) + " 1");
       if (a0.rfind("ok", 0) != 0) { co.out.inconclusive = true; break; }
-      int pause = s.pause > 0 ? 1 + (s.pause - 1) % 4 : 2;
-      co.send(w, "sem_new 7 " + name + " " + std::to_string(vn) + " 0 pause=" + std::to_string(pause));
+      // every other race step the overlapping open is a CREATE-mode one ("CREATE mode succeeds whether or not the name exists": the name
+      // exists at its first look and is gone at a later one)
+      bool creating = (s.args.size() > 0 ? s.args[0] : 0) % 2 == 1;
+      int pause = s.pause > 0 ? 1 + (s.pause - 1) % (creating ? 6 : 4) : 2;
+      co.send(w, "sem_new 7 " + name + " " + std::to_string(vn) + (creating ? " 1" : " 0") + " pause=" + std::to_string(pause));
       string r1;
       if (!co.recv(w, r1, 10000)) { co.out.inconclusive = true; break; }
       bool paused = r1.rfind("paused", 0) == 0;
@@ -491,8 +494,16 @@ Outcome run_c06(const Case &c, bool thorough) {
         string m = "resume\n"; ssize_t wr = write(co.ws[(size_t)w].fd, m.data(), m.size()); (void)wr;
         if (!co.recv(w, r1, 10000)) { co.out.inconclusive = true; break; }
       } else co.call(w2, "sem_free 7");
-      co.classes.insert(paused ? "open_vs_owner_free_paused_at_" + std::to_string(pause) : "open_vs_owner_free_not_reached");
-      if (r1.rfind("ok", 0) == 0) {
+      co.classes.insert(paused ? string(creating ? "create" : "open") + "_vs_owner_free_paused_at_" + std::to_string(pause) : string(creating ? "create" : "open") + "_vs_owner_free_not_reached");
+      if (creating) {
+        if (r1.rfind("ok", 0) != 0) co.fail("race-create-failed", "a CREATE-mode p_semaphore_new(name, " + std::to_string(vn) + ") that overlapped the owner's free of the name (parked at point " + std::to_string(pause) + " of the call) failed (" + r1 + "): CREATE mode succeeds whether or not the name exists");
+        else {
+          sem_t *pk = peek_open(name);
+          if (pk != SEM_FAILED) { int v = -1; sem_getvalue(pk, &v); sem_close(pk); if (v != vn) co.fail("race-create-value", "a CREATE-mode p_semaphore_new(name, " + std::to_string(vn) + ") that overlapped the owner's free of the name returned a counter with value " + std::to_string(v)); }
+          else co.classes.insert("create_vs_owner_free_name_removed_by_the_owner_afterwards");   // the owner's unlink came last: allowed ("after an owner frees its handle the next open starts a fresh counter")
+          co.call(w, "sem_own 7"); co.call(w, "sem_free 7");
+        }
+      } else if (r1.rfind("ok", 0) == 0) {
         sem_t *pk = peek_open(name);
         if (paused && pk != SEM_FAILED) {
           int v = -1; sem_getvalue(pk, &v);
@@ -813,6 +824,7 @@ Outcome run_c08(const Case &c, bool thorough) {
       auto parts = vl::split_ws(rr);
       long got = parts.size() > 1 ? atol(parts[1].c_str()) : -9; size_t want = std::min(len, us);
       if (got != (long)want) { co.fail("read-count", "read of " + std::to_string(len) + " with " + std::to_string(us) + " used returned " + std::to_string(got)); break; }
+      if (parts.size() > 4 && parts[3] == "beyond") { co.fail("read-beyond-count", "read of " + std::to_string(len) + " with " + std::to_string(us) + " used returned " + std::to_string(got) + " but overwrote the caller's storage at offset " + parts[4] + ", beyond the bytes it reported"); break; }
       if (want) { string data = vl::unhex(parts.size() > 2 ? parts[2] : ""); for (size_t i = 0; i < want; i++) if ((unsigned char)data[i] != model[i]) { co.fail("read-data", "bytes read in process " + std::to_string(w) + " differ from the FIFO model (written by other processes)"); break; } model.erase(model.begin(), model.begin() + (long)want); }
     } else if (s.cmd == "clear") { if (live[key]) { co.call(w, "buf_clear " + std::to_string(key.second)); model.clear(); wpos = 0; } }
     else if (s.cmd == "query") { if (live[key]) spaces(key, "query"); }
@@ -873,7 +885,7 @@ rc::Gen<Step> genStep(const string &prop, bool kills) {
   if (prop == "C06") {
     auto cmd = gen::weightedElement<string>({{8, "new"}, {12, "acq"}, {5, "rel"}, {2, "own"}, {3, "free"}, {2, "phase"}, {2, "race"}});
     return gen::map(gen::tuple(rng(0, 3), cmd, rng(0, 3), rng(0, 2), gen::weightedElement<long>({{4, 0}, {4, 1}, {4, 2}, {4, 3}, {4, 7}, {1, 32767}, {1, 32768}, {1, 65536}, {1, 2147483647}}), rng(0, 2), kills ? gen::weightedOneOf<int>({{6, gen::just(0)}, {1, rng(1, 9)}}) : gen::just(0)),
-                    [](const std::tuple<int, string, int, int, long, int, int> &t) { Step s; s.worker = std::get<0>(t); s.cmd = std::get<1>(t); s.args = {std::get<2>(t), std::get<3>(t), std::get<4>(t), std::get<5>(t)}; if (s.cmd == "new" || s.cmd == "free" || s.cmd == "acq") s.kill = std::get<6>(t); if (s.cmd == "race") s.pause = 1 + (std::get<2>(t) + 2 * std::get<5>(t)) % 4; return s; });
+                    [](const std::tuple<int, string, int, int, long, int, int> &t) { Step s; s.worker = std::get<0>(t); s.cmd = std::get<1>(t); s.args = {std::get<2>(t), std::get<3>(t), std::get<4>(t), std::get<5>(t)}; if (s.cmd == "new" || s.cmd == "free" || s.cmd == "acq") s.kill = std::get<6>(t); if (s.cmd == "race") s.pause = 1 + (std::get<2>(t) / 2 + std::get<5>(t)) % 6; return s; });
   }
   if (prop == "C07") {
     auto cmd = gen::weightedElement<string>({{8, "new"}, {8, "store"}, {8, "load"}, {5, "lock"}, {3, "unlock"}, {1, "own"}, {3, "free"}, {2, "phase"}, {2, "race"}});
@@ -933,7 +945,15 @@ void enumerate(const string &prop, long shard, long nshards) {
           Step d; d.worker = 1; d.cmd = "rel"; d.args = {0}; c.steps.push_back(d);
           exec("killenum", c, false);
         }
+    for (int creating = 0; creating < 2; creating++)
+      for (int k = 1; k <= 6; k++) {
+        if ((idx++ % nshards) != shard) continue;
+        Case c; c.prop = "C06";
+        Step s; s.worker = 0; s.cmd = "race"; s.args = {creating, k, k, creating}; s.pause = k; c.steps.push_back(s);
+        exec("raceenum", c, false);
+      }
     vl::stats().exhaustive["C06_every_kill_point_of_new(OPEN|CREATE,absent|existing)_free_acquire"] = true;
+    vl::stats().exhaustive["C06_every_pause_point_of_an_OPEN_or_CREATE_open_overlapping_the_owners_free"] = true;
   } else if (prop == "C07") {
     for (int pre = 0; pre < 2; pre++)
       for (int szi : {2, 6})
